@@ -12,7 +12,7 @@ OUT = os.path.join(VERIF, "out")
 EVIDENCE = os.path.join(VERIF, "evidence")
 PYTHON = "/venv/bin/python"
 JAVA_CP = "/opt/veriftools/tla/tla2tools.jar:/opt/veriftools/tla/CommunityModules-deps.jar"
-NCPU = min(16, os.cpu_count() or 1)
+NCPU = min(int(os.environ.get("VF_WORKERS", "16")), os.cpu_count() or 1)
 
 _scratch = None
 _used = False
